@@ -3,6 +3,7 @@ import QR.Proofs.Except
 import QR.Proofs.History
 import QR.Proofs.SourceTieC11
 import QR.Proofs.Pinned
+import QR.Proofs.SourceTieB2
 /-
 C11 - a compile depends only on current data and settings, never on history.  (Invariant proof under construction.)
 -/
@@ -206,6 +207,86 @@ theorem C11_history_free_any (ops : List Op) (g0 : Global) (hg : Global.Inv g0) 
 theorem C11_source_structure :
     Gen.Code.make_calls = ["self.best_fit", "self.makeImpl", "self.best_mask_pattern", "self.makeImpl"] :=
   QR.SourceTie.structure_make
+
+
+/-! ### Source tie, part 2 (T2 plugins `tools/t2_fragments/`): the hand-written Model equals the definitions translated from
+    /repo's current Python AST (`QR.Gen.Code`, regenerated on every run). Restated verbatim from `QR/Proofs/SourceTie*.lean`. -/
+section SourceTieT2
+open QR.Model QR.Gen.Code QR.SourceTieB
+
+/-- which callee stands where -/
+theorem C11_source_make_literals :
+    make_fit_default = true ∧ make_reset_target = "self.data_cache" ∧ make_fit_call = "self.best_fit" ∧
+    make_none_call = "self.makeImpl" ∧ make_none_mask_call = "self.best_mask_pattern()" ∧
+    make_some_call = "self.makeImpl" :=
+  QR.SourceTieB.make_literals
+
+theorem C11_source_makeImpl_literals :
+    makeImpl_cache_name = "precomputed_qr_blanks" ∧ makeImpl_hit_copy = "copy_2d_array" ∧
+    makeImpl_copy_body = "[row[:] for row in x]" ∧ makeImpl_empty_fill = "None" ∧
+    makeImpl_setup_calls = ["self.setup_position_probe_pattern", "self.setup_position_probe_pattern",
+      "self.setup_position_probe_pattern", "self.setup_position_adjust_pattern", "self.setup_timing_pattern"] ∧
+    makeImpl_store_value = "copy_2d_array(self.modules)" ∧ makeImpl_type_info_call = "self.setup_type_info" ∧
+    makeImpl_type_number_call = "self.setup_type_number" ∧ makeImpl_create_call = "util.create_data" ∧
+    (∀ v l, (makeImpl_create_args v l).2.2 = "self.data_list") ∧ makeImpl_map_call = "self.map_data" ∧
+    (∀ m, (makeImpl_map_args m).1 = "self.data_cache") :=
+  QR.SourceTieB.makeImpl_literals
+
+/-- `make(fit)`: `self.data_cache = None` first; reading the `version` property (in the test when `fit` is false, in the
+    call's argument otherwise) runs `best_fit()` when `_version is None`, so that the value read is never `None`
+    (second argument of `make_fit_test`); then the re-fit from the current version; then `makeImpl(False, ...)` with the
+    mask of `best_mask_pattern()` when `mask_pattern is None`, the configured mask otherwise -/
+theorem C11_source_makeS_src (fit : Bool) (g : Global) (s : QRState) :
+    makeS fit (g, s) =
+      (let s := { s with dataCache := make_reset_value }
+       let (s, r1) := if s.version = 0 then bestFitS 4 0 s else (s, .ok s.version)
+       match r1 with
+       | .error e => ((g, s), .error e)
+       | .ok _ =>
+         let (s, r2) := if make_fit_test fit false then bestFitS 4 (make_fit_start s.version) s else (s, .ok s.version)
+         match r2 with
+         | .error e => ((g, s), .error e)
+         | .ok _ =>
+           if make_mask_test s.mask.isNone then
+             match bestMaskS (g, s) with
+             | (st, .error e) => (st, .error e)
+             | (st, .ok m) => makeImplS make_none_test_arg m st
+           else makeImplS make_some_test_arg (make_some_mask_arg (s.mask.getD 0)) (g, s)) :=
+  QR.SourceTieB.makeS_src fit g s
+
+/-- the cache of blanks: the membership test, the key read on a hit and the key stored on a miss -/
+theorem C11_source_blankG_src (g : Global) (version : Nat) :
+    blankG g version =
+      (if (g.blanks.lookup (makeImpl_cache_key version)).isSome then
+        .ok (g, (g.blanks.lookup (makeImpl_hit_key version)).getD default)
+      else do
+        let b ← blank version
+        pure ({ blanks := (makeImpl_store_key version, b) :: g.blanks }, b)) :=
+  QR.SourceTieB.blankG_src g version
+
+/-- `makeImpl(test, mask_pattern)` on the object: every statement of the source, in order -/
+theorem C11_source_makeImplS_src (test : Bool) (mask : Nat) (g : Global) (s : QRState) :
+    makeImplS test mask (g, s) =
+      (let n := makeImpl_modules_count s.version
+       let s := { s with modulesCount := n }
+       match blankG g s.version with
+       | .error e => ((g, s), .error e)
+       | .ok (g, b) =>
+         let m := setupTypeInfo n s.level b (makeImpl_type_info_args test mask).1 (makeImpl_type_info_args test mask).2
+         let m := if makeImpl_type_number_test s.version then setupTypeNumber n s.version m (makeImpl_type_number_arg test)
+                  else m
+         let s := { s with modules := m }
+         match (if makeImpl_data_test s.dataCache.isNone then
+                  createData (makeImpl_create_args s.version s.level).1 (makeImpl_create_args s.version s.level).2.1 s.dataList
+                else .ok (s.dataCache.getD [])) with
+         | .error e => ((g, s), .error e)
+         | .ok d =>
+           let s := { s with dataCache := some d }
+           if (makeImpl_map_args mask).2 > 7 then ((g, s), .error .typeError)
+           else ((g, { s with modules := mapData n m d (makeImpl_map_args mask).2 }), .ok ())) :=
+  QR.SourceTieB.makeImplS_src test mask g s
+
+end SourceTieT2
 
 /-- the Python functions this property's model mirrors have, in /repo's current working tree, exactly the normalised
     ASTs the model was written and validated against (fingerprints regenerated by T1 on every run) -/
